@@ -8,6 +8,7 @@ import Proofs.C01_Lemmas
 import Proofs.C01_Object
 import Proofs.C01_Source
 import Proofs.C01_Dispatch
+import Proofs.C01_Scale
 import Mathlib.Tactic.LinearCombination
 import Mathlib.Tactic.NormNum
 
@@ -515,5 +516,119 @@ theorem obj_c2r_r2c (thr : K) (ops : List (Op K)) (s : V3 K)
 example : ((CBox.fresh : CBox ℚ).after (1/1000000000)
     [.set (.lengths ⟨2, 3, 4, 1/2, 0, 1⟩ ⟨1, 2, 3⟩), .read .recip, .set (.attrVects ⟨⟨2, 0, 0⟩, ⟨1, 3, 0⟩, ⟨0, 1, 5⟩⟩),
      .read (.c2r ⟨1, 1, 1⟩), .set (.attrOrigin ⟨0, 1, 0⟩)]).box.vects.det ≠ 0 := by decide +kernel
+
+/-! ### third hardening round: the unit of length; LAMMPS-compatible orientation is unique in its rotation class -/
+
+/-- inside / outside do not depend on the unit of length. -/
+theorem scale_inside (s : K) (hs : 0 < s) (b : Box K) (hd : 0 < b.vects.det) (lam lam' : Lams K) (hl : lam.Pos)
+    (hl' : lam'.Pos) (p : V3 K) (incl : Bool) :
+    inside (scaleBox s b) lam' (scaleV s p) incl = inside b lam p incl := by
+  have hds : 0 < (scaleBox s b).vects.det := by
+    show 0 < (scaleM s b.vects).det
+    rw [scale_det]; exact mul_pos (mul_pos (mul_pos hs hs) hs) hd
+  have hr := scale_cartToRel s (ne_of_gt hs) b (ne_of_gt hd) p
+  cases incl
+  · have h1 := (inside_iff_rel (scaleBox s b) hds lam' hl' (scaleV s p)).2
+    have h2 := (inside_iff_rel b hd lam hl p).2
+    rw [hr] at h1
+    exact Bool.eq_iff_iff.mpr (h1.trans h2.symm)
+  · have h1 := (inside_iff_rel (scaleBox s b) hds lam' hl' (scaleV s p)).1
+    have h2 := (inside_iff_rel b hd lam hl p).1
+    rw [hr] at h1
+    exact Bool.eq_iff_iff.mpr (h1.trans h2.symm)
+
+/-- the LAMMPS lengths / tilts / bounds are handed out exactly for LAMMPS-compatible cells (upper triangle zero and ALL THREE
+    diagonal entries positive), refused otherwise. -/
+theorem lammps_getters_refuse_iff (b : Box K) :
+    ((lengths? b).isSome = true ↔ (b.vects.r0.y = 0 ∧ b.vects.r0.z = 0 ∧ b.vects.r1.z = 0 ∧
+      0 < b.vects.r0.x ∧ 0 < b.vects.r1.y ∧ 0 < b.vects.r2.z)) ∧
+    ((hilos? b).isSome = (lengths? b).isSome) := by
+  rw [← isLammpsNorm_iff]
+  constructor
+  · cases h : b.isLammpsNorm <;> simp [lengths?, h]
+  · cases h : b.isLammpsNorm <;> simp [lengths?, hilos?, h]
+
+private theorem pos_sq_eq {x y : K} (hx : 0 < x) (hy : 0 < y) (h : x * x = y * y) : x = y := by
+  have : (x - y) * (x + y) = 0 := by linear_combination h
+  rcases mul_eq_zero.mp this with h1 | h1
+  · linarith
+  · linarith
+
+/-- A rotation class of cells has at most one LAMMPS-compatible member: two LAMMPS-normal cells with the same lengths and
+    angles (equal Gram matrices) have the same vectors.  So "the same vectors … when the cell is in LAMMPS-compatible
+    orientation" and "otherwise the same cell up to a rigid rotation" cannot be confused: a properly rotated copy of a
+    LAMMPS-oriented cell (e.g. turned by 180 degrees about x) is never LAMMPS-oriented itself. -/
+theorem normal_unique_of_gram (b1 b2 : Box K) (h1 : b1.isLammpsNorm = true) (h2 : b2.isLammpsNorm = true)
+    (hg : gram b1.vects = gram b2.vects) : b1.vects = b2.vects := by
+  obtain ⟨hy1, hz1, hbz1, hx1, hly1, hlz1⟩ := (isLammpsNorm_iff b1).mp h1
+  obtain ⟨hy2, hz2, hbz2, hx2, hly2, hlz2⟩ := (isLammpsNorm_iff b2).mp h2
+  obtain ⟨⟨⟨ax, ay, az⟩, ⟨bx, by', bz⟩, ⟨cx, cy, cz⟩⟩, o⟩ := b1
+  obtain ⟨⟨⟨ax', ay', az'⟩, ⟨bx', by'', bz'⟩, ⟨cx', cy', cz'⟩⟩, o'⟩ := b2
+  simp only at hy1 hz1 hbz1 hx1 hly1 hlz1 hy2 hz2 hbz2 hx2 hly2 hlz2
+  subst hy1 hz1 hbz1 hy2 hz2 hbz2
+  simp only [gram, M3.mul, M3.transpose, M3.vecMul, M3.mk.injEq, V3.mk.injEq] at hg
+  obtain ⟨⟨g00, g01, g02⟩, ⟨-, g11, g12⟩, ⟨-, -, g22⟩⟩ := hg
+  have e1 : ax = ax' := pos_sq_eq hx1 hx2 (by linear_combination g00)
+  subst e1
+  have e2 : bx = bx' := by
+    have : ax * (bx - bx') = 0 := by linear_combination g01
+    rcases mul_eq_zero.mp this with h | h
+    · exact absurd h (ne_of_gt hx1)
+    · linarith
+  subst e2
+  have e3 : cx = cx' := by
+    have : ax * (cx - cx') = 0 := by linear_combination g02
+    rcases mul_eq_zero.mp this with h | h
+    · exact absurd h (ne_of_gt hx1)
+    · linarith
+  subst e3
+  have e4 : by' = by'' := pos_sq_eq hly1 hly2 (by linear_combination g11)
+  subst e4
+  have e5 : cy = cy' := by
+    have : by' * (cy - cy') = 0 := by linear_combination g12
+    rcases mul_eq_zero.mp this with h | h
+    · exact absurd h (ne_of_gt hly1)
+    · linarith
+  subst e5
+  have e6 : cz = cz' := pos_sq_eq hlz1 hlz2 (by linear_combination g22)
+  subst e6
+  rfl
+
+/-- Reversing two Cartesian axes (a turn by 180 degrees about the third) keeps handedness, every length and every angle —
+    and the upper triangle of a LAMMPS-oriented cell stays zero — but the result is not LAMMPS-oriented and hands out no
+    LAMMPS parameters: positivity of EACH diagonal entry is part of the test, the product of two of them is not enough. -/
+theorem turned_cell_not_normal (b : Box K) (h : b.isLammpsNorm = true) :
+    let t := flipAxes 1 (-1) (-1) b
+    t.vects.det = b.vects.det ∧ gram t.vects = gram b.vects ∧
+    t.vects.r0.y = 0 ∧ t.vects.r0.z = 0 ∧ t.vects.r1.z = 0 ∧ 0 < t.vects.r0.x ∧ 0 < t.vects.r1.y * t.vects.r2.z ∧
+    t.isLammpsNorm = false ∧ lengths? t = none ∧ hilos? t = none := by
+  obtain ⟨hy, hz, hbz, hx, hly, hlz⟩ := (isLammpsNorm_iff b).mp h
+  have hn : (flipAxes 1 (-1) (-1) b).isLammpsNorm = false := by
+    rw [Bool.eq_false_iff]
+    intro hc
+    obtain ⟨-, -, -, -, h5, -⟩ := (isLammpsNorm_iff _).mp hc
+    simp only [flipAxes] at h5
+    linarith
+  refine ⟨?_, ?_, ?_, ?_, ?_, ?_, ?_, hn, ?_, ?_⟩
+  · simp only [flipAxes, M3.det, V3.dot, V3.cross]; ring
+  · simp only [flipAxes, gram, M3.mul, M3.transpose, M3.vecMul, M3.mk.injEq, V3.mk.injEq]
+    refine ⟨⟨?_, ?_, ?_⟩, ⟨?_, ?_, ?_⟩, ⟨?_, ?_, ?_⟩⟩ <;> ring
+  · simp only [flipAxes, hy, mul_zero]
+  · simp only [flipAxes, hz, mul_zero]
+  · simp only [flipAxes, hbz, mul_zero]
+  · simp only [flipAxes, one_mul]; exact hx
+  · simp only [flipAxes]
+    have := mul_pos hly hlz
+    linarith
+  · simp only [lengths?, hn]; rfl
+  · simp only [hilos?, hn]; rfl
+
+example : ∃ b : Box ℚ, b.isLammpsNorm = true ∧ b.vects.r1.x ≠ 0 ∧ b.vects.r2.y ≠ 0 :=
+  ⟨⟨⟨⟨4, 0, 0⟩, ⟨1/2, 3, 0⟩, ⟨-3/2, 1/4, 5⟩⟩, ⟨1, 2, 3⟩⟩, by decide +kernel, by decide +kernel, by decide +kernel⟩
+
+example : ∃ (s : ℚ) (b : Box ℚ) (p : V3 ℚ), 0 < s ∧ s ≠ 1 ∧ 0 < b.vects.det ∧
+    inside b Lams.ones p true = true ∧ inside b Lams.ones p false = false :=
+  ⟨1024, ⟨⟨⟨2, 0, 0⟩, ⟨1/2, 3, 0⟩, ⟨-1, 1/4, 5⟩⟩, ⟨1, -2, 3⟩⟩, ⟨1, -2, 3⟩, by decide +kernel, by decide +kernel,
+    by decide +kernel, by decide +kernel, by decide +kernel⟩
 
 end Atomman.C01
